@@ -1663,6 +1663,9 @@ class ListBox(Widget, WidgetContainerMixin):
             return None
         _ign1, _ign2, pos, _ign3 = t[-1]
         widget, pos = self._body.get_prev(pos)
+        while widget is not None and not widget.rows((maxcol,), True):
+            # never focus a 0-height widget
+            widget, pos = self._body.get_prev(pos)
         if widget is None:
             # no dice, we're stuck here
             return None
@@ -1850,6 +1853,9 @@ class ListBox(Widget, WidgetContainerMixin):
             return None
         _ign1, _ign2, pos, _ign3 = t[-1]
         widget, pos = self._body.get_next(pos)
+        while widget is not None and not widget.rows((maxcol,), True):
+            # never focus a 0-height widget
+            widget, pos = self._body.get_next(pos)
         if widget is None:
             # no dice, we're stuck here
             return None
